@@ -9,6 +9,7 @@
      * `self.x = ..` outside a function body, an augmented assignment to a name that is not bound to a data value
      * a binding statement in an `else:`/`except`/`finally:` suite or in the body of an `if` that is false at import
        time (pydoctor walks `.body` suites only: outside the agreed subset, see C03_orelse_not_walked_observation)
+     * a method assigning `self.a` while `a` is bound to a property in the class body so far
      * decorators other than one of staticmethod/classmethod/property (class bodies only) plus transparent ones
      * an import or a loop variable re-using a name that is bound to a definition; a base class that is not a class
        bound in the namespace executing the class statement and not a builtin class.
@@ -263,15 +264,39 @@ Definition bind_target (v : pyval) (t : target) (e : env) : option env :=
   | TSelf _ => None                                     (* NameError: self is not defined in a module/class body *)
   end.
 
-Fixpoint py_stmt (x : stmt) (sc : pscope) (e : env) {struct x} : option env :=
+(* the attributes a function body assigns through `self` (any depth) *)
+Fixpoint self_targets (x : stmt) : list name :=
+  let tg := fun t => match t with TSelf a => [a] | _ => [] end in
+  match x with
+  | Def _ _ _ body => flat_map self_targets body
+  | Class _ _ body => flat_map self_targets body
+  | Assign ts _ => flat_map tg ts
+  | AnnAssign t _ _ => tg t
+  | AugAssign t _ => tg t
+  | If _ b o => flat_map self_targets b ++ flat_map self_targets o
+  | Try b h o f => flat_map self_targets b ++ flat_map self_targets h ++ flat_map self_targets o ++ flat_map self_targets f
+  | With b => flat_map self_targets b
+  | For _ b o => flat_map self_targets b ++ flat_map self_targets o
+  | While b o => flat_map self_targets b ++ flat_map self_targets o
+  | _ => []
+  end.
+
+Definition is_property_val (v : option pyval) : bool :=
+  match v with Some (VFun _ WProp _) => true | _ => false end.
+
+Fixpoint py_stmt (strict : bool) (x : stmt) (sc : pscope) (e : env) {struct x} : option env :=
   match x with
   | Def nm decos asy body =>
       match def_wrap sc decos WNone with
-      | Some w => Some (bind nm (VFun asy w (docstring_of body)) e)
+      | Some w =>
+          (* strict: a method assigning `self.a` where the class body has bound `a` to a property so far is outside the
+             subset (pydoctor turns the property into an instance variable, see C03_kinds_property_self_refuted) *)
+          if strict && existsb (fun a => is_property_val (plookup a e)) (flat_map self_targets body) then None
+          else Some (bind nm (VFun asy w (docstring_of body)) e)
       | None => None
       end
   | Class nm bases body =>
-      match bases_exc e bases, ofold (fun y e' => py_stmt y PClass e') body [] with
+      match bases_exc e bases, ofold (fun y e' => py_stmt strict y PClass e') body [] with
       | Some exc, Some ns => Some (bind nm (VClass exc (docstring_of body) ns) e)
       | _, _ => None
       end
@@ -295,27 +320,31 @@ Fixpoint py_stmt (x : stmt) (sc : pscope) (e : env) {struct x} : option env :=
   | ExprStr _ => Some e
   | Other => Some e
   | If TMain _ orelse => if nonbinding_suite orelse then Some e else None          (* body not executed on import *)
-  | If TTrue body orelse => if nonbinding_suite orelse then ofold (fun y e' => py_stmt y sc e') body e else None
+  | If TTrue body orelse => if nonbinding_suite orelse then ofold (fun y e' => py_stmt strict y sc e') body e else None
   | If TFalse body orelse => if nonbinding_suite body && nonbinding_suite orelse then Some e else None
   | Try body h o f =>
       if nonbinding_suite h && nonbinding_suite o && nonbinding_suite f
-      then ofold (fun y e' => py_stmt y sc e') body e else None
-  | With body => ofold (fun y e' => py_stmt y sc e') body e
+      then ofold (fun y e' => py_stmt strict y sc e') body e else None
+  | With body => ofold (fun y e' => py_stmt strict y sc e') body e
   | For tgt body orelse =>
       if nonbinding_suite orelse then
         match bind_aux tgt e with
-        | Some e1 => ofold (fun y e' => py_stmt y sc e') body e1
+        | Some e1 => ofold (fun y e' => py_stmt strict y sc e') body e1
         | None => None
         end
       else None
-  | While body orelse => if nonbinding_suite orelse then ofold (fun y e' => py_stmt y sc e') body e else None
+  | While body orelse => if nonbinding_suite orelse then ofold (fun y e' => py_stmt strict y sc e') body e else None
   | Import ns => ofold bind_aux ns e
   end.
 
-Definition py_body (sc : pscope) (body : list stmt) (e : env) : option env :=
-  ofold (fun y e' => py_stmt y sc e') body e.
+Definition py_body (strict : bool) (sc : pscope) (body : list stmt) (e : env) : option env :=
+  ofold (fun y e' => py_stmt strict y sc e') body e.
 
-Definition py_exec (prog : list stmt) : option env := py_body PModule prog [].
+(* py_exec: the subset the theorems are stated for (strict); py_exec_lax: the same semantics without the
+   property/self restriction -- used by the harness to scope the pydoctor-vs-CPython oracle, so that the oracle
+   still sees (and reports as a known finding) the programs the strict subset excludes *)
+Definition py_exec (prog : list stmt) : option env := py_body true PModule prog [].
+Definition py_exec_lax (prog : list stmt) : option env := py_body false PModule prog [].
 
 (* ---- the type of a literal value ---------------------------------------------------------------------- *)
 Definition py_type_name (v : value) : text :=
